@@ -1,6 +1,7 @@
 (* Model.Parse_id3 -- exception-faithful mirror of mutagen.id3._tags.ID3Header.__init__ (header checks,
    synchsafe size, flag checks per version, extended header incl. the "flag set but a frame follows"
-   work-around, read_full) over a BytesIO.  Definitions only. *)
+   work-around, read_full, and -- v2.2/v2.3 with the unsynchronisation flag -- the de-unsynchronised reading of the
+   extended header, _read_unsynched) over a BytesIO.  Definitions only. *)
 From Coq Require Import ZArith List Bool.
 Import ListNotations.
 Require Import Base.Py Model.Parse_base Model.Parse_musepack Model.Id3Spec Gen.Gen_frames.
@@ -17,6 +18,38 @@ Definition id3_in_frames (name : list Z) : bool :=
 Definition id3_read_full (size : Z) : P (list Z) :=
   if size <? 0 then praise EValue
   else data <~ p_read size ;; if negb (zlen data =? size) then praise (EIO 0) else pret data.
+
+(* chunk.replace(b"\xff\x00", b"\xff"): left to right, non-overlapping *)
+Fixpoint id3_unstuff (l : list Z) : list Z :=
+  match l with
+  | [] => []
+  | a :: t => a :: (if a =? 255 then match t with 0 :: t' => id3_unstuff t' | _ => id3_unstuff t end
+                    else id3_unstuff t)
+  end.
+
+(* _read_unsynched(fileobj, size): read_full of what is missing, the 0x00 behind a final 0xFF is consumed (or the
+   byte read for the test is given back), FF 00 -> FF; returns (data, consumed).  Every round at least halves what
+   is missing, so 33 rounds suffice for a 32-bit size (Proofs.C04_id3). *)
+Fixpoint id3_read_unsynched (fuel : nat) (size : Z) (data : list Z) (consumed : Z) : P (list Z * Z) :=
+  match fuel with
+  | O => praise EOutOfFuel
+  | S f =>
+    if zlen data <? size then
+      chunk <~ id3_read_full (size - zlen data) ;;
+      consumed <~
+        (if last chunk 0 =? 255 then                       (* chunk.endswith(b"\xff") *)
+           following <~ p_read 1 ;;
+           if list_eqb following [0] then pret (consumed + zlen chunk + 1)
+           else p_seek (- zlen following) 1 ;;~ pret (consumed + zlen chunk)
+         else pret (consumed + zlen chunk)) ;;
+      id3_read_unsynched f size (data ++ id3_unstuff chunk) consumed
+    else pret (data, consumed)
+  end.
+
+(* the local `read`: _read_unsynched for an unsynchronised v2.2/v2.3 tag, else (read_full(fileobj, size), size) *)
+Definition id3_read_ext (unsynched : bool) (size : Z) : P (list Z * Z) :=
+  if unsynched then id3_read_unsynched 33 size [] 0
+  else data <~ id3_read_full size ;; pret (data, size).
 
 Definition id3h_init : P (list Z) :=
   pconvert_io (
@@ -35,17 +68,20 @@ Definition id3h_init : P (list Z) :=
       else if (4 <=? vmaj) && negb (flags mod 16 =? 0) then praise EMutagen
       else if (vmaj =? 3) && negb (flags mod 32 =? 0) then praise EMutagen
       else if (flags / 64) mod 2 =? 1 then
-        ext <~ id3_read_full 4 ;;
-        ' (flags, extsize) <~
-          (if id3_in_frames ext then p_seek (-4) 1 ;;~ pret (flags - 64, 0)
+        (* self.f_unsynch and self.version < self._V24 *)
+        let unsynched := ((flags / 128) mod 2 =? 1) && (vmaj <? 4) in
+        ' (ext, consumed) <~ id3_read_ext unsynched 4 ;;
+        ' (flags, extsize, consumed) <~
+          (if id3_in_frames ext then p_seek (- consumed) 1 ;;~ pret (flags - 64, 0, 0)
            else if 4 <=? vmaj then
-             if negb (id3_valid_padding ext) then praise EMutagen else pret (flags, mpc_bpi7 ext - 4)
+             if negb (id3_valid_padding ext) then praise EMutagen else pret (flags, mpc_bpi7 ext - 4, consumed)
            else
-             v <~ plift (unpack_be 4 ext) ;; pret (flags, v)) ;;
+             v <~ plift (unpack_be 4 ext) ;; pret (flags, v, consumed)) ;;
         if extsize <? 0 then praise EMutagen
         else
-          extdata <~ id3_read_full extsize ;;
+          ' (extdata, extconsumed) <~ id3_read_ext unsynched extsize ;;
           pos <~ p_tell ;;
+          (* _extsize = consumed + extconsumed is pos - 10 when the flag stays set *)
           pret [vmaj; vrev; flags; size; zlen extdata; pos]
       else pos <~ p_tell ;; pret [vmaj; vrev; flags; size; -1; pos]).
 Definition id3header_load (d : list Z) : result (list Z) := prun id3h_init d.
